@@ -252,6 +252,55 @@ pub fn c01(ctx: &mut Ctx) {
         }
     }
 
+    // ---- M1(e): mutated texts ---------------------------------------------------------------
+    // byte / token level mutations of valid rule texts, re-parsed by serde_json: shapes no
+    // generator would write (operators as data, arrays where scalars are expected, swapped tokens)
+    let n = ctx.budget(15_000, 2_000_000);
+    let toks = ["[", "]", "{", "}", ",", ":", "\"var\"", "\"\"", "null", "true", "1", "-1", "1e308", "-9223372036854775808", "18446744073709551615", "\"é😀\"", "[]", "{}", "\"a.b\"", "0.5", "\"reduce\"", "\"if\"", "\"substr\"", "\"missing_some\""];
+    for i in 0..n {
+        let d = rand_data(&mut ctx.rng, 3, 10, &mut 0);
+        let base = g.rule(&mut ctx.rng, &d, 4, 3).to_string();
+        let mut bytes: Vec<u8> = base.into_bytes();
+        for _ in 0..1 + ctx.rng.below(4) {
+            if bytes.is_empty() {
+                break;
+            }
+            let k = ctx.rng.below(bytes.len());
+            match ctx.rng.below(4) {
+                0 => {
+                    let t = ctx.rng.pick(&toks).as_bytes().to_vec();
+                    bytes.splice(k..k, t);
+                }
+                1 => {
+                    let e = (k + 1 + ctx.rng.below(6)).min(bytes.len());
+                    bytes.drain(k..e);
+                }
+                2 => {
+                    let e = (k + 1 + ctx.rng.below(12)).min(bytes.len());
+                    let chunk: Vec<u8> = bytes[k..e].to_vec();
+                    let at = ctx.rng.below(bytes.len());
+                    bytes.splice(at..at, chunk);
+                }
+                _ => {
+                    let t = ctx.rng.pick(&toks).as_bytes().to_vec();
+                    let e = (k + 1 + ctx.rng.below(4)).min(bytes.len());
+                    bytes.splice(k..e, t);
+                }
+            }
+        }
+        if let Ok(text) = String::from_utf8(bytes) {
+            if let Ok(rule) = serde_json::from_str::<Value>(&text) {
+                total(ctx, "c01.apply", "mutated-text", &rule, &d);
+                // and with rule and data swapped: data shapes as rules
+                if i % 4 == 0 {
+                    total(ctx, "c01.apply", "mutated-text", &d, &rule);
+                }
+            } else {
+                ctx.cell("mutated-text:not-json");
+            }
+        }
+    }
+
     // ---- M2: public helpers ---------------------------------------------------------------
     let mut hv = ex.clone();
     hv.extend(v_all());
